@@ -11,9 +11,14 @@ from __future__ import annotations
 
 import copy
 import enum
+import importlib
 import importlib.util
 import os
+import pickle
+import struct
 import tomllib
+import traceback
+from collections import Counter
 from pathlib import Path
 
 from vf import env
@@ -192,8 +197,137 @@ def diff(exp, got):
 # ------------------------------------------------------------------ driver
 
 
+_HISTORIES_RUN = 0  # histories executed in this process or in the ancestors it was forked from
+_ZYGOTE = None
+
+
+class _Zygote:
+    """A child process forked before its owner has executed any history. It executes nothing itself;
+    for every request it forks a grandchild that replays one history and sends back the result."""
+
+    def __init__(self):
+        if _HISTORIES_RUN:
+            raise HarnessError('C18: pristine helper requested in a process that has already executed histories')
+        req_r, req_w = os.pipe()
+        res_r, res_w = os.pipe()
+        pid = os.fork()
+        if pid == 0:
+            try:
+                os.close(req_w)
+                os.close(res_r)
+                self._serve(req_r, res_w)
+            finally:
+                os._exit(0)
+        os.close(req_r)
+        os.close(res_w)
+        self.req_w, self.res_r, self.owner = req_w, res_r, os.getpid()
+
+    @staticmethod
+    def _read(fd, n):
+        buf = b''
+        while len(buf) < n:
+            c = os.read(fd, n - len(buf))
+            if not c:
+                return None
+            buf += c
+        return buf
+
+    @classmethod
+    def _recv(cls, fd):
+        h = cls._read(fd, 4)
+        if h is None:
+            return None
+        return pickle.loads(cls._read(fd, struct.unpack('<I', h)[0]))
+
+    @staticmethod
+    def _send(fd, obj):
+        data = pickle.dumps(obj)
+        data = struct.pack('<I', len(data)) + data
+        while data:
+            data = data[os.write(fd, data) :]
+
+    def _serve(self, req_r, res_w):
+        import AEIC.config  # noqa: F401  (import only; what every fresh interpreter does first)
+
+        drivers = {}
+        while True:
+            req = self._recv(req_r)
+            if req is None:
+                return
+            dargs, history = req
+            if dargs not in drivers:
+                drivers[dargs] = ConfigDriver(*dargs, isolate=False)  # computes reference values only
+            back_r, back_w = os.pipe()
+            pid = os.fork()
+            if pid == 0:
+                try:
+                    os.close(back_r)
+                    try:
+                        r = drivers[dargs]._build_inproc(history)
+                    except Exception:  # noqa: BLE001
+                        r = {'harness_error': traceback.format_exc()}
+                    self._send(back_w, r)
+                finally:
+                    os._exit(0)
+            os.close(back_w)
+            r = self._recv(back_r)
+            os.close(back_r)
+            os.waitpid(pid, 0)
+            self._send(res_w, r if r is not None else {'harness_error': f'child died replaying {history}'})
+
+    def run(self, dargs, history):
+        self._send(self.req_w, (tuple(dargs), list(history)))
+        r = self._recv(self.res_r)
+        if r is None:
+            raise HarnessError('C18: the pristine helper process died')
+        return r
+
+
+def pristine_helper():
+    """The helper of this process, forked on first use - which must be before the first history."""
+    global _ZYGOTE
+    if _ZYGOTE is not None and _ZYGOTE.owner != os.getpid():
+        for fd in (_ZYGOTE.req_w, _ZYGOTE.res_r):  # inherited from the parent process: not ours
+            try:
+                os.close(fd)
+            except OSError:
+                pass
+        _ZYGOTE = None
+    if _ZYGOTE is None:
+        _ZYGOTE = _Zygote()
+    return _ZYGOTE
+
+
+_CACHES = None
+
+
+def _function_caches():
+    """functools caches defined at module or class level in the configuration modules."""
+    global _CACHES
+    if _CACHES is None:
+        import sys
+
+        found = []
+        for name in ('AEIC.config.core', 'AEIC.config.emissions', 'AEIC.config.weather', 'AEIC.utils.models'):
+            mod = sys.modules.get(name) or importlib.import_module(name)
+            holders = [mod] + [o for o in vars(mod).values() if isinstance(o, type) and o.__module__ == name]
+            for h in holders:
+                for o in list(vars(h).values()):
+                    if isinstance(o, (classmethod, staticmethod)):
+                        o = o.__func__
+                    elif isinstance(o, property):
+                        o = o.fget
+                    if type(o).__name__ == '_lru_cache_wrapper' and not any(o is f for f in found):
+                        found.append(o)
+        _CACHES = found
+    return _CACHES
+
+
 class ConfigDriver:
-    def __init__(self, alphabet, tail=0):
+    CONFIRM_PER_GROUP = 5
+    ALWAYS_CONFIRM_LEN = 3
+
+    def __init__(self, alphabet, tail=0, isolate=True):
         self.alphabet_name = alphabet
         self.alphabet = list(ALPHABETS[alphabet])
         self.tail = int(tail)
@@ -211,6 +345,11 @@ class ConfigDriver:
         self.keys = list(self.expected['defaults'])
         if len({fingerprint_values(v) for v in self.expected.values()}) != len(VALID):
             raise HarnessError('C18: valid load kinds must have pairwise different effective values')
+        # A process that never executes a history itself and from which a fresh child is forked whenever a
+        # violating history has to be re-executed from a pristine interpreter state (see build()).
+        self._confirmed = Counter()
+        self._artifact_seen = False
+        self.isolate = bool(isolate)
 
     # ---------------------------------------------------------------- model
     @staticmethod
@@ -247,6 +386,9 @@ class ConfigDriver:
     # ---------------------------------------------------------------- implementation
     @staticmethod
     def sandbox_reset():
+        """Emulate a fresh interpreter: no active configuration, no attributes on the proxy object,
+        empty memoisation caches (functools) in the configuration modules. Anything else that the code
+        under test might keep per process is caught by the pristine re-execution in build()."""
         from AEIC.config import core
 
         if hasattr(core, '_config'):
@@ -254,6 +396,8 @@ class ConfigDriver:
         else:
             core.Config.reset()
         vars(core.config).clear()
+        for c in _function_caches():
+            c.cache_clear()
 
     def _exec(self, ev, m):
         from AEIC.config import Config
@@ -303,6 +447,46 @@ class ConfigDriver:
         return None
 
     def build(self, history):
+        """Replay `history` in this process from the harness sandbox. The sandbox (singleton := None,
+        proxy attributes cleared) emulates a fresh interpreter only if the code under test keeps no
+        other process state, so a violating history is re-executed in a child forked from a process
+        that has never executed any history; that result is the authoritative one. A violation that
+        does not reproduce there is state leaked from an earlier history of this worker: the history
+        is then treated as the pristine run says and the event is recorded as 'sandbox-artifact'.
+        Confirmation is skipped (and the record marked confirmed=False) for histories longer than
+        ALWAYS_CONFIRM_LEN after CONFIRM_PER_GROUP confirmed violations of the same group, as long as
+        this worker has seen no artifact."""
+        if not self.isolate:
+            return self._build_inproc(history)
+        helper = pristine_helper()
+        r = self._build_inproc(history)
+        if not r['violations']:
+            return r
+        groups = sorted({(v.get('finding') or '', v['kind']) for v in r['violations']})
+        if (
+            len(history) > self.ALWAYS_CONFIRM_LEN
+            and not self._artifact_seen
+            and all(self._confirmed[g] >= self.CONFIRM_PER_GROUP for g in groups)
+        ):
+            for v in r['violations']:
+                v['confirmed'] = False
+            return r
+        p = helper.run((self.alphabet_name, self.tail), history)
+        if 'harness_error' in p:
+            raise HarnessError(f'pristine re-execution of {history} failed:\n{p["harness_error"]}')
+        if p['violations']:
+            for v in p['violations']:
+                v['confirmed'] = True
+                self._confirmed[(v.get('finding') or '', v['kind'])] += 1
+            return p
+        self._artifact_seen = True
+        p['outcomes'] = list(p['outcomes']) + [f'sandbox-artifact:{g[1]}' for g in groups]
+        p['artifacts'] = [list(g) for g in groups]
+        return p
+
+    def _build_inproc(self, history):
+        global _HISTORIES_RUN
+        _HISTORIES_RUN += 1
         self.sandbox_reset()
         m = self.initial()
         vio, outcomes = [], []
@@ -440,5 +624,5 @@ def fingerprint_values(v):
     return tuple(sorted((k, repr(x)) for k, x in v.items()))
 
 
-def driver(alphabet, tail=0):
-    return ConfigDriver(alphabet, tail)
+def driver(alphabet, tail=0, isolate=True):
+    return ConfigDriver(alphabet, tail, isolate)
